@@ -343,10 +343,11 @@ def evaluate(case, stt):
             ok_names = True
             for nm, xs in innermost.items():
                 offs = sorted(name_offsets.get(nm, []))
-                if len(offs) != len(xs):
-                    continue  # some copies were dropped as unreachable... not usable
-                for xid, off in zip(sorted(xs), offs):
-                    off_of[(nm, xid)] = off
+                # only ops that occur in exactly one expansion can be placed without knowing the order in which
+                # the compiler lays out blocks (an else block is emitted before the if block, ...)
+                if len(offs) != 1 or len(xs) != 1:
+                    continue
+                off_of[(nm, xs[0])] = offs[0]
             ext = {}  # expansion -> offsets of uniquely placed ops inside incl nested
             for (nm, xid), off in off_of.items():
                 cur = xid
